@@ -151,7 +151,7 @@ func (f *FnEnc) modSet(blocks map[*ssa.BasicBlock]bool) (map[*ssa.Alloc]bool, ma
 			case *ssa.MakeInterface:
 				if f.e.reg.isStruct(x.X.Type()) {
 					comps["W"] = true
-					f.addTypeComps(x.X.Type(), comps)
+					comps["Box."+f.e.reg.sortOf(x.X.Type())] = true
 				}
 			case *ssa.MakeMap, *ssa.MakeChan:
 				comps["W"] = true
@@ -297,8 +297,19 @@ func (f *FnEnc) encode() {
 		}
 		st.comps[n] = f.fresh(n+"@0", f.e.reg.comps[n].Sort)
 	}
-	f.out.WriteString(f.e.lemmaAxioms())
+	var uses []string
+	if f.c != nil {
+		uses = f.c.Uses
+	}
+	f.out.WriteString(f.e.lemmaAxioms(uses))
 	f.emit("(assert (>= %s 0))", st.comps["W"])
+	for _, n := range f.e.reg.compOrd {
+		if c, ok := st.comps[n]; ok {
+			if wf := f.heapWF(n, c, st.comps["W"]); wf != "" {
+				f.emit("(assert %s)", wf)
+			}
+		}
+	}
 	f.entry = st.clone()
 	for _, p := range fn.Params {
 		s := f.e.reg.sortOf(p.Type())
@@ -320,6 +331,14 @@ func (f *FnEnc) encode() {
 			f.emit("(assert %s)", tf)
 		}
 		f.emit("(assert (> %s 0))", c)
+		if pt, ok := fv.Type().Underlying().(*types.Pointer); ok {
+			el := pt.Elem()
+			if f.e.reg.isStruct(el) {
+				f.addrs[fv] = &Addr{Kind: akObj, Ref: c, Typ: el}
+			} else if _, isS := el.Underlying().(*types.Struct); !isS {
+				f.addrs[fv] = &Addr{Kind: akBox, Ref: c, Comp: "Box." + f.e.reg.sortOf(el), Typ: el}
+			}
+		}
 	}
 	if fn.Signature.Recv() != nil && len(fn.Params) > 0 {
 		f.selfRef = f.vals[fn.Params[0]].T
@@ -497,6 +516,13 @@ func (f *FnEnc) loopHead(li *loopInfo) {
 	f.st = st
 	if comps["W"] {
 		f.assume(fmt.Sprintf("(>= %s %s)", st.comps["W"], pre.comps["W"]))
+	}
+	for _, n := range f.e.reg.compOrd {
+		if comps[n] && st.comps[n] != pre.comps[n] {
+			if wf := f.heapWF(n, st.comps[n], st.comps["W"]); wf != "" {
+				f.assume(wf)
+			}
+		}
 	}
 	for c := range cells {
 		if v, ok := pre.cells[c]; ok {
